@@ -11,7 +11,7 @@ package lintcmd
 // symbolic scenario; see //verif:stub below.
 //
 // Symbolic: for every object slot its line, the byte of its name, the byte of
-// its file's base name, its ObjectPath package (present or empty, as
+// its file's base name, whether display positions are remapped (//line), its ObjectPath package (present or empty, as
 // objectpath yields no path for unexported objects) and whether the variant
 // lists it as used, unused, or not at all; whether each package enables
 // U1000.
@@ -29,22 +29,6 @@ import (
 	"honnef.co/go/tools/unused"
 )
 
-//verif:stub (*honnef.co/go/tools/lintcmd/runner.Runner).Run c17Run
-//verif:stub (honnef.co/go/tools/lintcmd/runner.Result).Load c17Load
-
-var (
-	c17Results []runner.Result
-	c17Data    map[*loader.PackageSpec]runner.ResultData
-)
-
-func c17Run(r *runner.Runner, cfg *packages.Config, as []*analysis.Analyzer, patterns []string) ([]runner.Result, error) {
-	return c17Results, nil
-}
-
-func c17Load(r runner.Result) (runner.ResultData, error) {
-	return c17Data[r.Package], nil
-}
-
 type c17Slot struct {
 	pkg     int // package index
 	variant int // index into results
@@ -61,6 +45,9 @@ var c17Dirs = [2]string{"/src/a/", "/src/b/"}
 // c17Scenario builds nVar[p] variants for package p with nObj object slots each.
 func c17Scenario(nVar [2]int, nObj int, perSlotPath bool) ([]c17Slot, [2]bool) {
 	allPaths := nondetBool()
+	// positions remapped by //line directives (or cgo): the position shown to
+	// the user differs from the position of the declaration
+	remap := nondetBool()
 	c17Results = nil
 	c17Data = map[*loader.PackageSpec]runner.ResultData{}
 	var slots []c17Slot
@@ -98,6 +85,9 @@ func c17Scenario(nVar [2]int, nObj int, perSlotPath bool) ([]c17Slot, [2]bool) {
 				Name: s.name, ShortName: s.name, Kind: "func",
 				Position:        token.Position{Filename: file, Line: s.line, Column: 6},
 				DisplayPosition: token.Position{Filename: file, Line: s.line, Column: 6},
+			}
+			if remap {
+				s.obj.DisplayPosition = token.Position{Filename: c17Dirs[p] + "gen.y", Line: s.line + 100, Column: 1}
 			}
 			if perSlotPath {
 				if nondetBool() {
